@@ -25,8 +25,41 @@ func (c *c18Config) set(it int, lang string, state int) *c18Config {
 	return c
 }
 
+func (c *c18Config) voice(textStates, audioStates map[string]int) *c18Config {
+	c.Voice = true
+	c.VStates = [2]map[string]int{{}, {}}
+	for _, l := range nonBase(c.Base) {
+		c.VStates[0][l], c.VStates[1][l] = textStates[l], audioStates[l]
+	}
+	return c
+}
+
 func c18DirectedConfig(name string) *c18Config {
 	switch name {
+	// the localization has a section for the flow's own base language: never used, wherever the base language stands in the chain
+	case "base-section-contact-is-base":
+		c := c18Cfg("eng", []string{"spa", "eng"}, "eng", stSame)
+		c.BaseSection = true
+		return c
+	case "base-section-nothing-else-translated":
+		c := c18Cfg("spa", []string{"eng", "fra"}, "fra", stAbsent)
+		c.BaseSection = true
+		return c
+	case "base-section-base-is-default":
+		c := c18Cfg("eng", []string{"eng", "spa"}, "", stSame)
+		c.BaseSection = true
+		return c
+	// say_msg: text and recording translated in different languages
+	case "voice-text-and-recording-in-different-languages":
+		return c18Cfg("eng", []string{"fra", "spa"}, "spa", stSame).voice(map[string]int{"spa": stSame, "fra": stSame}, map[string]int{"fra": stSame})
+	case "voice-recording-only-translated":
+		return c18Cfg("eng", []string{"spa"}, "spa", stAbsent).voice(map[string]int{}, map[string]int{"spa": stSame})
+	case "voice-text-only-translated":
+		return c18Cfg("eng", []string{"spa"}, "spa", stAbsent).voice(map[string]int{"spa": stSame}, map[string]int{})
+	case "voice-whitespace-text":
+		c := c18Cfg("eng", []string{"fra", "spa"}, "spa", stSame).voice(map[string]int{"spa": stSpace}, map[string]int{"fra": stSame})
+		c.BaseSection = true
+		return c
 	case "blank-translations":
 		return c18Cfg("eng", []string{"spa", "eng"}, "spa", stSame).all("spa", stBlank)
 	case "argument-list-lengths":
